@@ -13,6 +13,7 @@ import asyncio
 import errno
 import logging
 import os
+import socket
 
 from mitmproxy import options as moptions
 from mitmproxy.addons import proxyserver
@@ -38,6 +39,51 @@ DRAIN_ERRORS = {
 NON_CONNECTION = ("ETIMEDOUT", "EHOSTUNREACH", "ENETUNREACH", "EIO")
 # fixed fault matrix: errno class x which socket dies x at which drain() x one-shot / sticky (socket dead: reads fail too)
 DRAIN_MATRIX = [(e, side, when, sticky) for e in DRAIN_ERRORS for side in ("client", "srv0") for when in (1, 2, 3) for sticky in (False, True)]
+
+
+# how an upstream connect can fail: OSError subclasses as the OS / asyncio / getaddrinfo raise them (errno + text) and the same
+# classes raised bare (no arguments: str(e) == ""), which e.g. asyncio's own timeouts and some wrappers do
+CONNECT_ERRORS = {
+    "refused-msg": lambda: ConnectionRefusedError(errno.ECONNREFUSED, "Connection refused (injected)"),
+    "refused-bare": lambda: ConnectionRefusedError(),
+    "timeout-msg": lambda: TimeoutError(errno.ETIMEDOUT, "Connection timed out (injected)"),
+    "timeout-bare": lambda: TimeoutError(),
+    "oserror-bare": lambda: OSError(),
+    "oserror-errno-empty-text": lambda: OSError(errno.EHOSTUNREACH, ""),
+    "unreachable-msg": lambda: OSError(errno.ENETUNREACH, os.strerror(errno.ENETUNREACH)),
+    "gaierror-msg": lambda: socket.gaierror(socket.EAI_NONAME, "Name or service not known"),
+    "gaierror-bare": lambda: socket.gaierror(),
+}
+# fixed matrix: error class x with/without message x (regular | reverse eager | reverse lazy)
+CONNECT_MATRIX = [(e, mode, strat) for e in CONNECT_ERRORS for (mode, strat) in (("regular", "lazy"), ("reverse", "eager"), ("reverse", "lazy"))]
+
+
+def connect_matrix_plan(r, k):
+    """The upstream connect fails with one cell of CONNECT_MATRIX; the client sends data (before and after the failure) and
+    then closes, resets or goes idle."""
+    err, mode, strat = CONNECT_MATRIX[k % len(CONNECT_MATRIX)]
+    acts = [(r.choice([0, 0.01, 0.3, 2]), ("data", b"<c%d:%s>" % (j, bytes(r.choice(b"abcdefgh") for _ in range(r.choice([0, 3, 20])))))) for j in range(r.choice([1, 2, 3]))]
+    ending = r.choice(["eof", "eof", "silent", "reset"])
+    if ending != "silent":
+        acts.append((r.choice([0.01, 0.3, 2, 8]), (ending,)))
+    return {
+        "clean": False,
+        "matrix": ("connect", err, mode, strat),
+        "mode": mode,
+        "connection_strategy": strat,
+        "connect": "fail:" + err,
+        "connect_delay": r.choice([0, 0.01, 1]),
+        "client": acts,
+        "client_end": ending,
+        "origin": [],
+        "origin_end": "silent",
+        "tcp_timeout": r.choice([600, 5, 5]),
+        "msg_delay": [r.choice([0, 0, 0.2]) for _ in range(4)],
+        "edits": ["keep"] * 4,
+        "hook_delay": {h: 0.2 for h in ("tcp_start", "tcp_error") if r.random() < 0.2},
+        "lifecycle_delay": {},
+        "drain_fault": None,
+    }
 
 
 def matrix_plan(r, k):
@@ -147,6 +193,7 @@ class Result:
         self.connected = False
         self.drain_errors = []
         self.flows = {}
+        self.connect_failures = []  # (time, error name, str(exception)) of upstream connects that raised
         self.finished = False  # set once the handler has returned and the loop is quiescent
         self.tasks_left = []
 
@@ -179,7 +226,7 @@ def gen_plan(r):
         "clean": clean,
         "mode": r.choice(["regular", "regular", "reverse"]),
         "connection_strategy": r.choice(["eager", "lazy"]),
-        "connect": "ok" if clean else r.choice(["ok", "ok", "ok", "ok", "refuse", "hang", "slow"]),
+        "connect": "ok" if clean else r.choice(["ok", "ok", "ok", "ok", "ok", "refuse", "hang", "slow", "fail:" + r.choice(list(CONNECT_ERRORS))]),
         "connect_delay": r.choice([0, 0.01, 1]),
         "client": c_script,
         "client_end": c_end,
@@ -259,9 +306,14 @@ def run_plan(plan):
         if plan["connect_delay"]:
             await asyncio.sleep(plan["connect_delay"])
         if how == "refuse":
-            raise ConnectionRefusedError("Connection refused (injected)")
+            how = "fail:refused-msg"
+        if how.startswith("fail:"):
+            exc = CONNECT_ERRORS[how[5:]]()
+            res.connect_failures.append((loop.now(), how[5:], str(exc)))
+            raise exc
         if how == "hang":  # no answer to the SYN: the OS gives up after its connect timeout
             await asyncio.sleep(120)
+            res.connect_failures.append((loop.now(), "timeout-msg", "Connection timed out (injected)"))
             raise TimeoutError("Connection timed out (injected)")
         if how == "slow":
             await asyncio.sleep(3)
